@@ -317,6 +317,16 @@ fn emit_block(a: &mut Asm, rng: &mut Rng, o: &ProgOpts, funcs: &[usize], n: u64,
                 a.shape.push('J');
             }
             8 if o.syscalls => {
+                // mov eax, nr ; (rdi := 0 | data pointer) ; syscall
+                if !o.reserved.contains(&0) && !o.reserved.contains(&7) && rng.below(4) != 0 {
+                    a.b.push(0xb8);
+                    a.b.extend_from_slice(&(*rng.pick(&[12u32, 12, 158, 39, 0x1000, 1])).to_le_bytes());
+                    if rng.below(2) == 0 {
+                        a.b.extend_from_slice(&[0x31, 0xff]); // xor edi, edi
+                    } else {
+                        a.b.extend_from_slice(&[0x48, 0x89, 0xdf]); // mov rdi, rbx
+                    }
+                }
                 a.b.extend_from_slice(&[0x0f, 0x05]);
                 a.shape.push('y');
             }
